@@ -114,6 +114,10 @@ def main(ck):
              "ELSE Res(Shr(Up(wlast), n1 - 1), bib2, s.wpos + k + 1, result, FALSE,\n                      \\/ ~(bir < 64)")])
     mutant("reader peek: refill condition >= instead of >", "MC_BufReader", rcfg % ("be", 1),
            [("BufReaderImpl.tla", "LET r == IF n > s.bib THEN RefillBE(s)", "LET r == IF n >= s.bib + 2 THEN RefillBE(s)")])
+    mutant("unbuffered reader: unary boundary <= instead of <", "MC_BitReader",
+           'SPECIFICATION Spec\nCONSTANTS E = "le"\n Strict = FALSE\n Pat = 2\n NW = 3\n Data <- DataConst\nINVARIANT Refines\nCHECK_DEADLOCK FALSE\n',
+           [("BitReaderImpl.tla", "IF z0 < 64 - off THEN Res(s.idx + z0 + 1, wp + 1, z0, FALSE, FALSE)",
+             "IF z0 <= 64 - off THEN Res(s.idx + z0 + 1, wp + 1, z0, FALSE, FALSE)")])
     mutant("adapter: single write (pinned defect)", "MC_Adapter",
            "SPECIFICATION Spec\nCONSTANTS WBytes = 4\n NWordsC = 2\n RetryWrites = FALSE\nINVARIANTS WLossFree RExact\nCHECK_DEADLOCK FALSE\n", [])
     mutant("change points: step wraps (pinned defect)", "MC_ChangePoints",
